@@ -93,7 +93,7 @@ def check_stab_per_step(prog, rep, qual='transformation.orthogonalize'):
     the triangular factor and feeds the exponent (P-stab-step)."""
     fn = prog.func(qual)
     mod = fn.module
-    loops = [n for n in fn.node.body if isinstance(n, ast.For)]
+    loops = [n for n in paths.linear(fn.node.body) if isinstance(n, ast.For)]
     if len(loops) != 2:
         rep.error('%s: expected two sweep loops' % qual)
         return
@@ -108,8 +108,10 @@ def check_stab_per_step(prog, rep, qual='transformation.orthogonalize'):
                             isinstance(b.value, ast.Call) and \
                             (prog.dotted(b.value.func) or '').endswith(
                                 'core_stab'):
+                        from . import roles as _roles
                         t0 = b.targets[0].elts[0]
-                        a0 = b.value.args[0] if b.value.args else None
+                        a0 = _roles.arg(prog, mod, b.value, 'G', 0)
+                        a1 = _roles.arg(prog, mod, b.value, 'p0', 1)
                         same_core = a0 is not None and \
                             ast.dump(t0).replace('Store', 'Load') == \
                             ast.dump(a0)
@@ -118,10 +120,9 @@ def check_stab_per_step(prog, rep, qual='transformation.orthogonalize'):
                         var = loop.target.id if isinstance(loop.target,
                                                            ast.Name) else '?'
                         right_core = idx == '%s%s1' % (var, off)
-                        p_fed = len(b.value.args) > 1 and \
-                            isinstance(b.value.args[1], ast.Name) and \
+                        p_fed = isinstance(a1, ast.Name) and \
                             isinstance(b.targets[0].elts[1], ast.Name) and \
-                            b.value.args[1].id == b.targets[0].elts[1].id
+                            a1.id == b.targets[0].elts[1].id
                         ok = same_core and right_core and p_fed
         rep.add('P-stab-step', qual, 'sweep loop %d (%s): per-step '
                 'core_stab of the core that received the weight'
@@ -144,10 +145,26 @@ def check_saturation(prog, rep, qual='act_two.accuracy'):
                 node.left.value in (2, 2.0):
             n += 1
             gs = paths.guards_of(fn.node, node)
-            txt = [(paths.src(mod, t).replace(' ', ''), pol) for t, pol in gs]
-            ex = paths.src(mod, node.right).replace(' ', '').strip('()')
-            hi = any(pol is False and t.startswith(ex + '>') for t, pol in txt)
-            lo = any(pol is False and t.startswith(ex + '<-') for t, pol in txt)
+            ex = paths.src(mod, node.right)
+            dex = ast.dump(node.right)
+
+            def _num(x):
+                if isinstance(x, ast.Constant) and \
+                        isinstance(x.value, (int, float)):
+                    return x.value
+                if isinstance(x, ast.UnaryOp) and \
+                        isinstance(x.op, ast.USub) and \
+                        isinstance(x.operand, ast.Constant):
+                    return -x.operand.value
+                return None
+            hi = lo = False
+            for l, oc, r, ln, rn in paths.cmp_facts(gs):
+                if l != dex or _num(rn) is None:
+                    continue
+                if oc in (ast.LtE, ast.Lt) and _num(rn) > 0:
+                    hi = True           # exponent bounded above
+                if oc in (ast.GtE, ast.Gt) and _num(rn) < 0:
+                    lo = True           # exponent bounded below
             rep.add('P-sat', qual, paths.src(mod, node),
                     'ok' if hi and lo else 'violation',
                     '' if hi and lo else 'the power 2**(%s) is not dominated '
